@@ -166,6 +166,21 @@ def run(rep, ix, tier):
     r = common.returns_of(pf)
     ps = [a.arg for a in pf.args.args]
     rep.ob('R-C14-ORDER', f'{M}:parse_file', 'the public parser reads every row', len(r) == 1 and _n(r[0].value) == f'_parse_file({ps[0]},{ps[1]},{ps[2]},break_after_first_row=False)', node=pf, module=m)
+    # the parse starts at the beginning of the file whoever calls it and whatever was read from the object before
+    def rewinds_first(fn):
+        first = None
+        for st in fn.body:
+            if isinstance(st, ast.Expr) and isinstance(st.value, ast.Constant):
+                continue
+            first = st
+            break
+        return first is not None and isinstance(first, ast.Expr) and isinstance(first.value, ast.Call) and _n(first.value) == f'{fn.args.args[0].arg}.seek(0)'
+    inner = rewinds_first(p)
+    callers = [fn for fn in m.tree.body if isinstance(fn, ast.FunctionDef) and fn is not p and any(_n(c.func) == '_parse_file' for c in common.calls_in(fn))]
+    outer = bool(callers) and all(rewinds_first(fn) for fn in callers)
+    rep.ob('R-C14-ORDER', site, 'parsing starts at offset 0 for every entry point (history of the file object does not matter)', inner or outer,
+           found=f'_parse_file rewinds: {inner}; callers that rewind first: {[fn.name for fn in callers if rewinds_first(fn)]} of {[fn.name for fn in callers]}',
+           required='file_object.seek(0) first in _parse_file, or first in each of its callers', node=p, module=m)
     # (5) UTC only
     local_apis = {'time.localtime', 'datetime.datetime.fromtimestamp', 'datetime.fromtimestamp', 'time.mktime', 'datetime.datetime.now', 'datetime.datetime.today', 'time.ctime', 'time.asctime'}
     used = []
